@@ -40,9 +40,11 @@ TStep ==
   /\ \/ TEv.a = "Start"  /\ Start(TEv.s)
      \/ TEv.a = "Settle" /\ Settle(TEv.s)
      \/ TEv.a = "Finish" /\ Finish(TEv.s)
-     \/ TEv.a = "BeginStep" /\ BeginStep(TEv.s) /\ NoErr'
-     \/ TEv.a = "StepReturn" /\ TEv.err = "" /\ StepReturn(TEv.s, [nk |-> TEv.nk, n |-> TEv.n]) /\ NoErr'
-     \/ TEv.a = "DataReturn" /\ TEv.err = "" /\ DataReturn(TEv.s, SeqSet(TEv.attrs), TEv.dt) /\ NoErr'
+     \/ TEv.a = "BeginStep" /\ BeginStep(TEv.s) /\ pc'[TEv.s] = "step"
+     \/ TEv.a = "StepReturn" /\ StepReturn(TEv.s, [nk |-> TEv.nk, n |-> TEv.n]) /\ (pc'[TEv.s] = "failed" <=> TEv.err # "")
+     \/ TEv.a = "DataReturn" /\ TEv.err = "" /\ DataReturn(TEv.s, SeqSet(TEv.attrs), TEv.dt) /\ pc'[TEv.s] # "failed"
+     \* a reply that made get_outputs raise: the produced attributes were not logged, TLC infers them
+     \/ TEv.a = "DataReturn" /\ TEv.err # "" /\ (\E A \in SUBSET OutReq(TEv.s) : DataReturn(TEv.s, A, TEv.dt)) /\ pc'[TEv.s] = "failed"
   /\ PostOk
   /\ l' = l + 1 /\ tid' = tid
 
